@@ -58,6 +58,7 @@ var byPkg = map[string][]*TypeInfo{}
 var pkgNames []string
 var featureTypes []*TypeInfo
 var twinList []*TypeInfo
+var clashTypes []*TypeInfo
 
 // genTypesEnabled: this process draws workloads over types compiled from generated bundles. Only
 // every third worker does: compiling a bundle runs a lot of j5 code (the BCL parser reflects its own
@@ -172,7 +173,9 @@ func buildCatalogue() {
 		ti.Reflectable = !staticallyUnreflectable(mt.Descriptor(), map[protoreflect.FullName]bool{})
 		catalogue = append(catalogue, ti)
 		catByName[n] = ti
-		if ti.Reflectable {
+		if ti.Pkg == "test.zzclash.v1" {
+			clashTypes = append(clashTypes, ti) // known finding: workloads of their own only
+		} else if ti.Reflectable {
 			goodTypes = append(goodTypes, ti)
 			byPkg[ti.Pkg] = append(byPkg[ti.Pkg], ti)
 		} else {
@@ -199,7 +202,7 @@ func buildCatalogue() {
 	// the repository's own test protos exist to cover every J5 feature (flattening, exposed and
 	// wrapped oneofs, anys, keys, wrappers ...): they get extra weight in the type pools
 	for _, ti := range goodTypes {
-		if strings.HasPrefix(ti.Pkg, "test.schema.") || strings.HasPrefix(ti.Pkg, "test.foo.") || strings.HasPrefix(ti.Pkg, "test.zzcyc.") {
+		if strings.HasPrefix(ti.Pkg, "test.schema.") || strings.HasPrefix(ti.Pkg, "test.foo.") || strings.HasPrefix(ti.Pkg, "test.zzcyc.") || strings.HasPrefix(ti.Pkg, "test.zzshape.") {
 			featureTypes = append(featureTypes, ti)
 		}
 	}
@@ -1164,6 +1167,19 @@ var opKinds = []string{"encode", "encode", "encode", "decode", "decode", "query"
 func genWorkload(seed uint64, deep bool) *Workload {
 	rng := simrt.NewRng(simrt.Derive(seed, 0xc10))
 	w := &Workload{Codec: codecKinds[rng.Intn(len(codecKinds))]}
+	if len(clashTypes) > 0 && rng.Bool(0.015) {
+		// distinct types with one J5 schema name (known finding): a workload of their own
+		w.Codec = []string{"new", "global", "shared_cache", "reflector"}[rng.Intn(4)]
+		for t, n := 0, 2+rng.Intn(2); t < n; t++ {
+			var ops []OpSpec
+			for i, k := 0, 1+rng.Intn(2); i < k; i++ {
+				ti := clashTypes[rng.Intn(len(clashTypes))]
+				ops = append(ops, OpSpec{Kind: []string{"encode", "decode", "walk", "schema"}[rng.Intn(4)], Type: ti.key(), ValSeed: rng.Uint64()})
+			}
+			w.Tasks = append(w.Tasks, ops)
+		}
+		return w
+	}
 	// type pool for this run
 	var pool []*TypeInfo
 	shape := rng.Float64()
